@@ -471,6 +471,7 @@ func ttxGenStreamMode(r *fw.Rand, tablesOnce bool) ttxStream {
 	}
 	// PES packetisation: 1..N units per PES, headers and rows in the same or following PES
 	w := newTSWriter()
+	announceOther := r.P(1, 3)
 	ttxDescTag := fw.Pick(r, []byte{0x56, 0x56, 0x46})
 	cnt[fmt.Sprintf("streams_announced_by_descriptor_0x%02x", ttxDescTag)]++
 	tables := func() {
@@ -480,7 +481,12 @@ func ttxGenStreamMode(r *fw.Rand, tablesOnce bool) ttxStream {
 			streams = append(streams, pmtStream{0x03, 0x1ff1, []byte{0x0a, 4, 'e', 'n', 'g', 0}})
 		}
 		// the teletext stream is announced by a teletext descriptor or by a VBI teletext descriptor (same body)
-		streams = append(streams, pmtStream{0x06, tpid, teletextDescriptor(ttxDescTag, mag, page)})
+		// (the page the descriptor announces is a hint for receivers: it is the transmitted pages that count)
+		amag, apage := mag, page
+		if announceOther {
+			amag, apage = mag%8+1, (page+37)%100
+		}
+		streams = append(streams, pmtStream{0x06, tpid, teletextDescriptor(ttxDescTag, amag, apage)})
 		if r.P(1, 3) {
 			streams = append(streams, pmtStream{0x06, tpid + 1, teletextDescriptor(0x56, 1, 0)}) // a second teletext PID: the first one is taken
 		}
